@@ -66,6 +66,8 @@ var props = map[string]prop{
 		"probe.A1-v1-control.offered", "probe.A1-v1-output-address.offered", "probe.A1-v1-sig-bitflip.offered", "probe.A1-v1-key-index.offered", "probe.A2-v2-control.offered", "probe.A2-v2-output-address.offered", "probe.A2-v2-sig-reordered.offered", "probe.A2-v2-preimage-flip.offered", "probe.A2-v2-needed-branch-opaque.offered", "probe.A4-value.offered", "probe.A5-v2-unauthorized.offered", "probe.A5-v2-authorized.offered", "probe.A5-v1-authorized.offered", "probe.A5-v1-partial-sig.offered"),
 	"C04": e1prop("C04", 240, 6000, e1Case+"probe profile: live elements are presented with one field, leaf index, proof hash or proof length altered, with another element's proof, as never-created or re-labelled spent elements, through v2 parents (ValidateBlock and ValidateTransactionElements) and through v1 supplement entries, rebalanced and re-signed so that only membership is wrong: all rejected, unmodified live elements accepted; accumulator = naive forest after every block.",
 		"probe.M-v2-control.offered", "probe.M1-value.offered", "probe.M1-address-steal.offered", "probe.M1-leaf-index.offered", "probe.M1-proof-bitflip.offered", "probe.M1-other-proof.offered", "probe.M2-never-created.offered", "probe.M1-maturity.offered", "probe.M1-sf-value.offered", "probe.M1-v1-supp-value.offered", "probe.M1-v1-supp-proof.offered"),
+	"C07": e1prop("C07", 240, 6000, e1Case+"renter/host pairs drive whole contract lives on the simulated chain (v1 via rhp/v2 PrepareContractFormation, v2 with short windows; files of 0 bytes, partial last leaf, non-power-of-two leaf counts; revisions, renewals, proofs, expiries, host crashes, reorgs) and the reference ledger's contract tracker requires at most one resolution paying exactly the latest accepted revision's outputs with the maturity delay; on private forks the adversary runs the prove/verify matrix (honest accepted; other leaf, data bit, proof bit, short/long proof, other file, other contract, wrong/fake proof index rejected; RefMerkle is the independent prover) and the revision / renewal / formation rule rows.",
+		"reach.resolved.proof.era3", "reach.resolved.expire.era3", "reach.resolved.v2proof", "reach.resolved.v2expire", "reach.resolved.renewal", "probe.K3-v1-honest-era3.offered", "probe.K3-v1-honest-era2.offered", "probe.K3-v1-honest-era1.offered", "probe.K7-v2-honest.offered", "probe.K3-v1-other-file.offered", "probe.K7-v2-index-other-height.offered", "probe.K5-total-plus-1.offered", "probe.K6-final-plus-1.offered", "probe.K2-valid-sum-plus-1.offered", "probe.payout-checked", "fault.host-crash"),
 	"C08": e1prop("C08", 240, 6000, e1Case+"probe profile: for each height/time rule the adversary builds the transaction that is valid except for the rule and advances a private fork of a reachable state with empty blocks so that it is offered in the block at bound-1 (must be rejected) and at bound (must be accepted); after(t) is driven to median == t (reject) and t+1s (accept) with chosen timestamps.",
 		"probe.T3-maturity-early.offered", "probe.T3-maturity-at-bound.offered", "probe.T2-v1-timelock-early.offered", "probe.T2-v2-uc-timelock-at-bound.offered", "probe.P1-above-early.offered", "probe.P1-above-at-bound.offered", "probe.P1-after-at-T.offered", "probe.P1-after-T-plus-1.offered", "probe.T1-v1-after-require-at-bound.offered", "probe.T1-v2-before-allow-early.offered"),
 	"C01": {
